@@ -60,6 +60,7 @@ type Contract struct {
 	usedLoops map[int]bool
 	Notes     []string
 	Shared    bool
+	Allows    map[string]string
 }
 
 type GhostDecl struct {
@@ -77,6 +78,28 @@ type LemmaDecl struct {
 	Line int
 }
 
+// AtomicInv: invariant of the values held by an atomic pointer field shared between goroutines:
+// checked at every Store/CompareAndSwap, assumed at every Load.
+type AtomicInv struct {
+	Key  string // "Type.field"
+	Var  string
+	Src  string
+	Expr ast.Expr
+	Pkg  string
+}
+
+// FieldConstraint: a reflexive, transitive two-state invariant of a heap field of pre-existing objects
+// ("mapping only ever changes to nil", "f never changes"). Checked at every store to the field in a
+// function under contract; assumed whenever the heap is havocked wholesale.
+type FieldConstraint struct {
+	Key  string // "Type.field"
+	Src  string
+	Expr ast.Expr
+	Pkg  string
+	heapKey string
+	ft   types.Type
+}
+
 type ConstPin struct {
 	Pkg, Name, Lit string
 	File        string
@@ -89,11 +112,13 @@ type ContractFile struct {
 	Ghosts    []*GhostDecl
 	Lemmas    []*LemmaDecl
 	Pins      []*ConstPin
+	AtomicInvs []*AtomicInv
+	FieldCons  []*FieldConstraint
 	Recursive map[string]bool
 	Pure      map[string]bool
 }
 
-var clauseKeywords = map[string]bool{"requires": true, "ensures": true, "modifies": true, "loop": true, "at": true, "inline": true,
+var clauseKeywords = map[string]bool{"allows": true, "requires": true, "ensures": true, "modifies": true, "loop": true, "at": true, "inline": true,
 	"trusted": true, "decreases": true, "allocates": true, "note": true, "shared": true}
 
 func parseContractFile(path, pkgPath string) (*ContractFile, error) {
@@ -175,6 +200,28 @@ func parseContractText(text, path, pkgPath string) (*ContractFile, error) {
 		case "recursive":
 			flush()
 			cf.Recursive[rest] = true
+		case "field-constraint":
+			// field-constraint <Type>.<field>: <expr over new, old>   (two-state invariant of a heap field)
+			flush()
+			cur = nil
+			k := strings.Index(rest, ":")
+			if k < 0 {
+				return nil, fmt.Errorf("%s:%d: bad field-constraint", path, i+1)
+			}
+			pd = &pend{"fieldc:" + strings.TrimSpace(rest[:k]), rest[k+1:], i + 1}
+		case "atomic-invariant":
+			// atomic-invariant <Type>.<field> <var>: <expr>
+			flush()
+			cur = nil
+			k := strings.Index(rest, ":")
+			if k < 0 {
+				return nil, fmt.Errorf("%s:%d: bad atomic-invariant", path, i+1)
+			}
+			f := strings.Fields(rest[:k])
+			if len(f) != 2 {
+				return nil, fmt.Errorf("%s:%d: bad atomic-invariant header", path, i+1)
+			}
+			pd = &pend{"atomicinv:" + f[0] + ":" + f[1], rest[k+1:], i + 1}
 		default:
 			if clauseKeywords[kw] {
 				flush()
@@ -226,6 +273,23 @@ func (cf *ContractFile) addClause(c *Contract, kw, text, path string, line int) 
 		}
 		return &Clause{Src: src, Expr: e, File: path, Line: line}, nil
 	}
+	if strings.HasPrefix(kw, "fieldc:") {
+		e, err := parseSpecExpr(text)
+		if err != nil {
+			return fmt.Errorf("cannot parse field-constraint %q: %v", text, err)
+		}
+		cf.FieldCons = append(cf.FieldCons, &FieldConstraint{Key: kw[7:], Src: text, Expr: e, Pkg: cf.Pkg})
+		return nil
+	}
+	if strings.HasPrefix(kw, "atomicinv:") {
+		parts := strings.SplitN(kw, ":", 3)
+		e, err := parseSpecExpr(text)
+		if err != nil {
+			return fmt.Errorf("cannot parse atomic-invariant %q: %v", text, err)
+		}
+		cf.AtomicInvs = append(cf.AtomicInvs, &AtomicInv{Key: parts[1], Var: parts[2], Src: text, Expr: e, Pkg: cf.Pkg})
+		return nil
+	}
 	if strings.HasPrefix(kw, "lemma:") {
 		e, err := parseSpecExpr(text)
 		if err != nil {
@@ -259,6 +323,17 @@ func (cf *ContractFile) addClause(c *Contract, kw, text, path string, line int) 
 			}
 			c.Modifies = append(c.Modifies, cl)
 		}
+	case "allows":
+		// allows panic#k: <reason>  -- a documented API-misuse panic that is not an obligation
+		k := strings.Index(text, ":")
+		site, reason := text, ""
+		if k >= 0 {
+			site, reason = strings.TrimSpace(text[:k]), strings.TrimSpace(text[k+1:])
+		}
+		if c.Allows == nil {
+			c.Allows = map[string]string{}
+		}
+		c.Allows[site] = reason
 	case "inline":
 		c.Inline = true
 	case "trusted":
@@ -404,8 +479,48 @@ func findTop(s, op string) int {
 	return -1
 }
 
+// findTopKeyword finds a top-level quantifier keyword that is not at the start of s.
+func findTopQuant(s string) int {
+	depth := 0
+	inStr := byte(0)
+	for i := 0; i < len(s); i++ {
+		c := s[i]
+		if inStr != 0 {
+			if c == '\\' {
+				i++
+			} else if c == inStr {
+				inStr = 0
+			}
+			continue
+		}
+		switch c {
+		case '"', '\'', '`':
+			inStr = c
+		case '(', '[', '{':
+			depth++
+		case ')', ']', '}':
+			depth--
+		}
+		if i > 0 && depth == 0 && !isIdentChar(s[i-1]) && (strings.HasPrefix(s[i:], "forall ") || strings.HasPrefix(s[i:], "exists ")) {
+			return i
+		}
+	}
+	return -1
+}
+
+var rwDepth int
+
 func rewriteSpec(s string) string {
+	rwDepth++
+	defer func() { rwDepth-- }()
+	if rwDepth > 200 {
+		panic("contract: expression nesting too deep while rewriting: " + s)
+	}
 	s = strings.TrimSpace(s)
+	// a quantifier in the middle of an expression extends to the end of its level
+	if p := findTopQuant(s); p > 0 {
+		s = s[:p] + "(" + s[p:] + ")"
+	}
 	if strings.HasPrefix(s, "forall ") || strings.HasPrefix(s, "exists ") {
 		q := s[:6]
 		k := findTop(s, "::")
@@ -1377,6 +1492,7 @@ func (e *CEnv) havocLvalue(cl *Clause, st *State) {
 				}
 			}
 			p.heapHavocked = true
+			p.newEpoch(st)
 			return
 		case strings.HasPrefix(n.Name, "ghost__"):
 			g := n.Name[7:]
